@@ -212,6 +212,8 @@ void XMLWriter::location(const location_t& loc)
 /* writes the init tag */
 void XMLWriter::init(const template_t& templ)
 {
+    if (templ.init == symbol_t())  // a template without locations ("process P() { }") has no initial location
+        return;
     int id = static_cast<const location_t*>(templ.init.get_data())->nr;
     startElement("init");
     writeAttribute("ref", concat("id", id).c_str());
